@@ -3,7 +3,7 @@ wrapper's reply conversion; model-checked for sanity invariants), RedisKVGen.tla
 through redis.Redis and kv.New on 1-3 miniredis shards; spec/RedisWire.tla (canonical wire command of every
 wrapper method) -> comparison with the commands recorded by miniredis' pre-hook; breaker clause driven through
 the real per-address breaker."""
-import json
+import json, os, re
 from concurrent.futures import ThreadPoolExecutor, as_completed
 from vlib import core
 
@@ -23,7 +23,11 @@ META = dict(
          "keyspaces (type, value, TTL; every key on exactly one shard) must equal the model's keyspace. A second TLA+ "
          "table (RedisWire) gives the canonical RESP command for every wrapper method incl. geo, HyperLogLog, BitOp*, "
          "BitPos, Scan family, scripts; TLC enumerates argument tuples and the command that reaches miniredis "
-         "(pre-hook) is compared. The breaker clause is driven on the real per-address breaker with a forced coin.",
+         "(pre-hook) is compared. The breaker clause (RedisBrk.tla) ranges over every entry point of the wrapper that goes through the breaker - "
+         "the list is read from redis.go of the tree under test (every method calling a method of r.brk, directly or by "
+         "delegation; an entry point without a driver call is exit 2) and includes Pipelined/PipelinedCtx, Eval, EvalSha: "
+         "bursts of redis.Nil replies and of cancelled contexts through each entry point never make a later call be "
+         "rejected, an outage through it does; driven on the real per-address breaker with a forced coin and frozen clock.",
     note="Trusted: TLC, miniredis 2.23.1 as the Redis environment (never the oracle: every expected value comes from "
          "the specification), go-redis' encoding of a command it is handed. Fully modelled (reply + effect): Get Set "
          "SetEx SetNX SetNXEx GetSet Incr IncrBy Decr DecrBy MGet Del Exists Expire ExpireAt Persist TTL Keys; HSet HSetNX "
@@ -32,8 +36,9 @@ META = dict(
          "ZAdds ZScore ZIncrBy ZCard ZCount ZRank ZRevRank ZRem ZRange ZRevRange Z(Rev)RangeWithScores "
          "Z(Rev)RangeByScoreWithScores(+AndLimit) ZRemRangeByScore ZRemRangeByRank ZUnionStore(2 keys, SUM). Only the "
          "emitted wire command is checked (no reply conversion / effect claimed) for geo, HyperLogLog, BitCount, BitOp*, "
-         "BitPos, GetBit/SetBit, Scan/SScan/HScan, SPop, SRandMember, Eval/EvalSha/ScriptLoad, Ping; blocking pops, "
-         "pipelines, cluster type and TLS are not covered. TTL of an absent/persistent key: the model says -2/-1, the "
+         "BitPos, GetBit/SetBit, Scan/SScan/HScan, SPop, SRandMember, Eval/EvalSha/ScriptLoad, Ping; pipelines are covered "
+         "for the wire commands of one two-command pipeline and for the breaker clause only; blocking pops and ScriptLoad "
+         "bypass the breaker (reported in evidence) and are not driven; cluster type and TLS are not covered. TTL of an absent/persistent key: the model says -2/-1, the "
          "wrapper returns 0 (go-redis reports the sentinels as Duration(-2/-1) and the wrapper truncates to seconds); "
          "the statement's 'same result after the documented conversion' admits both, so both are accepted and the "
          "observation is counted in evidence (ttl.sentinel-as-0). During transparency runs the breaker's coin is forced "
@@ -137,8 +142,8 @@ def run(ctx):
             if name in ("str2", "zset2", "mix"):
                 ctx.samples += core.sample_of(cases[len(cases) // 3:], 1)[:1]
             ctx.replay(PKG, OVERLAY, "^TestVerifC12$", path, label=name, shards=16, binp=binp)
-    wire(ctx, binp)
-    brk(ctx, binp)
+    wire_path, methods = wire(ctx, binp)
+    brk(ctx, binp, wire_path, methods)
 
 
 def wire(ctx, binp):
@@ -147,17 +152,52 @@ def wire(ctx, binp):
     r = ctx.tlc("RedisWire", cfg, constants=K, name="wire", timeout=600, workers=1, heap="2g")
     path, n = ctx.write_cases("wire.ndjson", r.printed)
     ctx.samples += core.sample_of(r.printed, 1)
-    cnt, _ = ctx.replay(PKG, OVERLAY, "^TestVerifC12Wire$", path, label="wire", shards=4, binp=binp)
-    ctx.notes["wire_methods_checked"] = len({json.loads(l)["m"] for l in r.printed})
+    ctx.replay(PKG, OVERLAY, "^TestVerifC12Wire$", path, label="wire", shards=4, binp=binp)
+    methods = {json.loads(l)["m"] for l in r.printed}
+    ctx.notes["wire_methods_checked"] = len(methods)
     ctx.notes["wire_rows"] = n
+    return path, methods
 
 
-def brk(ctx, binp):
-    K = dict(MaxLen=3 if ctx.quick else 4)
+def guarded_entry_points():
+    """Read lib/store/redis/redis.go of the tree under test: which methods of *Redis go through the breaker
+    (their body, or the body of the *Redis method they delegate to, calls r.brk.<something>), and with which
+    call.  Returns (entry points without the Ctx suffix, {call shape: count}, methods that bypass the breaker)."""
+    src = open(os.path.join(core.REPO, "lib/store/redis/redis.go"), encoding="utf-8").read()
+    parts = re.split(r"(?m)^func \(r \*Redis\) (\w+)\(", src)
+    bodies = {parts[i]: parts[i + 1] for i in range(1, len(parts) - 1, 2)}
+    direct = {n: re.findall(r"r\.brk\.(\w+)\(", b) for n, b in bodies.items()}
+    guarded = {n for n, c in direct.items() if c}
+    changed = True
+    while changed:                      # delegation: X -> r.YCtx(...) with Y guarded
+        changed = False
+        for n, b in bodies.items():
+            if n not in guarded and any(m in guarded for m in re.findall(r"\br\.(\w+)\(", b)):
+                guarded.add(n)
+                changed = True
+    shapes = {}
+    for c in direct.values():
+        for x in c:
+            shapes[x] = shapes.get(x, 0) + 1
+    base = lambda n: n[:-3] if n.endswith("Ctx") else n
+    exported = {n for n in bodies if n[0].isupper() and n != "String"}
+    return {base(n) for n in guarded if n[0].isupper()}, shapes, sorted({base(n) for n in exported - guarded})
+
+
+def brk(ctx, binp, wire_path, known):
+    entries, shapes, bypass = guarded_entry_points()
+    known = set(known)
+    missing = sorted(entries - known)
+    if missing:
+        raise core.Infra("breaker-guarded entry points of redis.go without a driver call (extend RedisWire/wire_test.go): %s" % missing)
+    ctx.notes["breaker_entry_points"] = len(entries)
+    ctx.notes["breaker_call_shapes_in_source"] = shapes
+    ctx.notes["methods_bypassing_breaker"] = bypass
+    K = dict(MaxLen=3 if ctx.quick else 4, Methods=sorted('"%s"' % m for m in entries))
     cfg = core.render_cfg(spec="Spec", constants=K, invariants=["Emit"])
     r = ctx.tlc("RedisBrk", cfg, constants=K, name="brk", timeout=600, workers=2, heap="2g")
     path, n = ctx.write_cases("brk.ndjson", r.printed)
-    ctx.replay(PKG, OVERLAY, "^TestVerifC12Breaker$", path, label="brk", shards=8, binp=binp)
+    ctx.replay(PKG, OVERLAY, "^TestVerifC12Breaker$", path, label="brk", shards=16, binp=binp, env=dict(VERIF_WIRE=wire_path))
 
 
 def replay(ctx, rp):
@@ -168,4 +208,10 @@ def replay(ctx, rp):
         test = "^TestVerifC12Wire$"
     elif key.startswith("C12:breaker"):
         test = "^TestVerifC12Breaker$"
-    ctx.replay(PKG, OVERLAY, test, path, label="replay", env=dict(VERIF_FORMS="both"))
+    env = dict(VERIF_FORMS="both")
+    if test == "^TestVerifC12Breaker$":
+        K = dict(Quick=False)
+        r = ctx.tlc("RedisWire", core.render_cfg(spec="Spec", constants=K, invariants=["Emit"]), constants=K, name="wire",
+                    timeout=600, workers=1, heap="2g")
+        env["VERIF_WIRE"] = ctx.write_cases("wire.ndjson", r.printed)[0]
+    ctx.replay(PKG, OVERLAY, test, path, label="replay", env=env)
